@@ -77,6 +77,13 @@ def to_bytes(tokens, rnd) -> bytes:
                 rows += wire._ld(1, nested_triple_row(int(d.split("-")[1])))
                 continue
             rows += wire._ld(1, wire.enc_row(row))
+        elif k == "strings":
+            # one statement whose every string field (language tag, lexical form, blank-node label) and the entry rows before it carry the hostile pattern
+            pat = {"alnum-run-then-odd": "a" * 48 + "_", "hyphen-runs-then-odd": "ab-" * 24 + "!", "blanks": " " * 4000 + "x", "nested-brackets": "<" * 300 + ">" * 300}[t[1]]
+            rows += wire._ld(1, wire.enc_row({"r": "name", "id": 1, "v": pat})) + wire._ld(1, wire.enc_row({"r": "pfx", "id": 1, "v": pat}))
+            rows += wire._ld(1, wire.enc_row({"r": "dt", "id": 1, "v": pat}))
+            rows += wire._ld(1, wire.enc_row({"r": "triple", "s": {"t": "bn", "v": pat}, "p": {"t": "iri", "p": 1, "n": 1}, "o": {"t": "lit", "lex": pat, "lang": pat}}))
+            rows += wire._ld(1, wire.enc_row({"r": "triple", "s": {"t": "iri", "p": 1, "n": 1}, "p": {"t": "iri", "p": 0, "n": 1}, "o": {"t": "lit", "lex": pat, "dt": 1}}))
         elif k == "frame-end":
             close(t[1])
         elif k == "empty-frame":
